@@ -95,7 +95,7 @@ def run(repo, dirs, seconds, work, seed=1, shards=8):
             for c in st["callables"]:
                 calls[c["name"]] = calls.get(c["name"], 0) + c["calls"]
                 if c.get("skip"): notes[c["name"]] = "not called: " + c["skip"]
-                elif c.get("note"): notes[c["name"]] = c["note"]
+                elif c.get("note") and "not compared" in c["note"]: notes[c["name"]] = c["note"]
     res["sequences"], res["steps"] = seqs, steps
     res["calls"] = calls
     res["notes"] = notes
